@@ -605,7 +605,7 @@ pub fn checks() -> Vec<CheckDef> {
     vec![CheckDef {
         id: "C13",
         level: "fault_enumeration",
-        runs_quick: 1_500,
+        runs_quick: 1_000,
         runs_thorough: 40_000,
         rule: "versions (text, JSON, non-UTF-8, empty, 5 kB) and snapshots carrying plaintext markers are stored through each remote backend: the object-store server (shared key, and the ordinary constructor with its stored random salt), the git server (files and every object in the repository history) and the HTTP client (request bodies captured by the harness listener). (1) An independent implementation of docs/src/encryption.md on ring primitives (M-seal) must open every stored value with the documented salt and version binding (HTTP versions: parent id; everything else: own id) to exactly the bytes handed in; format byte 1; no nonce twice; no marker in stored bytes. (2) Stored values are then replaced - every single-byte position x 3 bit patterns, every truncation length (all positions for a quarter of the values and in the thorough tier, a seeded sample otherwise), another version's content, the same plaintext sealed under another secret / another salt / another version id, garbage, empty; on HTTP also a complete genuine response for another parent - and fetched through a fresh handle: the call must fail. evaluations = attack fetches. Non-trivial: at least one value attacked; distinct = distinct trace hash.",
         gen: gen_c13,
